@@ -161,6 +161,15 @@ prop("C01", True,
      "call-graph reach per goroutine root + kill-site/recover rule + must-recurse + lock-dominance for shared maps + loop-exit classification, with the zone prover for implicit panics",
      "DESIGN.md §2 C01")
 
+prop("C03", True,
+     "Static isolation check for all interleavings and histories of the eight stateful services: a forward may-alias analysis marks as shared the Handle receiver, package-level variables of the service packages, variables captured by closures built before any connection existed, "
+     "and everything loaded from them (inter-procedural over the VTA reach of each Handle restricted to the service's own code; field-based heap; closures, parameters, results, interface dispatch; cut at the event pipeline, directors, loggers, sync, TLS key material, the per-source limiter). "
+     "Violations: a store through a shared address into a struct field or global, any send/receive/range/select on a shared channel, a mutating call on a shared stateful library object. Keyed maps are allowed (their locking is C01's). "
+     "Event addresses: all 135 event.SourceAddr/DestinationAddr sites under services/ take RemoteAddr()/LocalAddr() (not swapped) of a connection that is not stored in a service object. Cross-talk through the OS, libraries or response ordering is not decided.",
+     "One Servicer per configured service, Handle called concurrently (server/honeytrap.go). The may-alias analysis is field-based and flow-insensitive (over-approximate); library callbacks are not followed.",
+     "inter-procedural shared-memory (escape/ownership) taint with sink rules + role/provenance rule over go/ssa and the VTA call graph",
+     "DESIGN.md §2 C03")
+
 PENDING = {
  "C01": "check not built yet in this revision (design: DESIGN.md §2 C01)",
 }
